@@ -3,15 +3,12 @@ package main
 import (
 	"bytes"
 	"compress/lzw"
-	"compress/zlib"
-	"encoding/binary"
 	"fmt"
-	"hash/crc32"
-	"image/png"
 	"sort"
 
 	"verif/internal/cserve"
 	"verif/internal/ev"
+	"verif/internal/pngmk"
 )
 
 // ---- chunk scripts ---------------------------------------------------------------
@@ -251,141 +248,21 @@ func lzwFlushFamily(thorough bool) []seed {
 	return out
 }
 
-// ---- PNG writer: colour type x depth x filter per row x width x height ---------------------------
+// ---- PNG family: internal/pngmk (colour type x depth x filter type per row x width x height, + Adam7) ----
 
-type pngSpec struct {
-	ctype, depth int
-	w, h         int
-	filter       int // 0..4
-	lastRowOnly  bool
-	interlaced   bool
-}
-
-func (s pngSpec) name() string {
-	l := ""
-	if s.lastRowOnly {
-		l = "last"
-	}
-	i := ""
-	if s.interlaced {
-		i = "-adam7"
-	}
-	return fmt.Sprintf("gen:png/c%dd%d-%dx%d-f%d%s%s", s.ctype, s.depth, s.w, s.h, s.filter, l, i)
-}
-
-func pngChunk(b *bytes.Buffer, typ string, data []byte) {
-	binary.Write(b, binary.BigEndian, uint32(len(data)))
-	c := crc32.NewIEEE()
-	c.Write([]byte(typ))
-	c.Write(data)
-	b.WriteString(typ)
-	b.Write(data)
-	binary.Write(b, binary.BigEndian, c.Sum32())
-}
-
-// makePNG writes a PNG whose filtered scanlines are arbitrary (deterministic) bytes with the chosen filter
-// type bytes: every byte string is valid filtered data, the decoder just un-filters it.
-func makePNG(s pngSpec) []byte {
-	channels := map[int]int{0: 1, 2: 3, 3: 1, 4: 2, 6: 4}[s.ctype]
-	bpp := channels * s.depth
-	var b bytes.Buffer
-	b.Write([]byte{0x89, 'P', 'N', 'G', 0x0D, 0x0A, 0x1A, 0x0A})
-	ihdr := make([]byte, 13)
-	binary.BigEndian.PutUint32(ihdr[0:], uint32(s.w))
-	binary.BigEndian.PutUint32(ihdr[4:], uint32(s.h))
-	ihdr[8], ihdr[9] = byte(s.depth), byte(s.ctype)
-	if s.interlaced {
-		ihdr[12] = 1
-	}
-	pngChunk(&b, "IHDR", ihdr)
-	if s.ctype == 3 {
-		plte := make([]byte, 3*(1<<s.depth))
-		for i := range plte {
-			plte[i] = byte(i*53 + 7)
-		}
-		pngChunk(&b, "PLTE", plte)
-	}
-	var raw bytes.Buffer
-	seq := 0
-	rows := func(w, h int) {
-		if w == 0 || h == 0 {
-			return
-		}
-		rb := (w*bpp + 7) / 8
-		for y := 0; y < h; y++ {
-			f := s.filter
-			if s.lastRowOnly && y != h-1 {
-				f = 0
-			}
-			raw.WriteByte(byte(f))
-			for x := 0; x < rb; x++ {
-				seq++
-				raw.WriteByte(byte(seq*37 + (seq >> 3) + 11))
-			}
-		}
-	}
-	if !s.interlaced {
-		rows(s.w, s.h)
-	} else {
-		for _, p := range [7][4]int{{0, 0, 8, 8}, {4, 0, 8, 8}, {0, 4, 4, 8}, {2, 0, 4, 4}, {0, 2, 2, 4}, {1, 0, 2, 2}, {0, 1, 1, 2}} {
-			pw := (s.w - p[0] + p[2] - 1) / p[2]
-			ph := (s.h - p[1] + p[3] - 1) / p[3]
-			if s.w <= p[0] {
-				pw = 0
-			}
-			if s.h <= p[1] {
-				ph = 0
-			}
-			rows(pw, ph)
-		}
-	}
-	var z bytes.Buffer
-	zw := zlib.NewWriter(&z)
-	zw.Write(raw.Bytes())
-	zw.Close()
-	pngChunk(&b, "IDAT", z.Bytes())
-	pngChunk(&b, "IEND", nil)
-	return b.Bytes()
-}
-
-func pngSpecs(thorough bool) []pngSpec {
-	type cd struct{ c, d int }
-	cds := []cd{{0, 1}, {0, 2}, {0, 4}, {0, 8}, {0, 16}, {2, 8}, {2, 16}, {3, 1}, {3, 2}, {3, 4}, {3, 8}, {4, 8}, {4, 16}, {6, 8}, {6, 16}}
-	widths := []int{1, 2, 3, 4, 5, 6, 7, 8, 9, 10}
-	heights := []int{1, 2}
-	if thorough {
-		widths = []int{1, 2, 3, 4, 5, 6, 7, 8, 9, 10, 11, 12, 13, 14, 15, 16, 17, 18, 31, 32, 33}
-		heights = []int{1, 2, 3}
-	}
-	var out []pngSpec
-	for _, c := range cds {
-		for _, w := range widths {
-			for _, h := range heights {
-				for f := 0; f <= 4; f++ {
-					out = append(out, pngSpec{ctype: c.c, depth: c.d, w: w, h: h, filter: f})
-				}
-				if h > 1 {
-					for _, f := range []int{2, 3, 4} {
-						out = append(out, pngSpec{ctype: c.c, depth: c.d, w: w, h: h, filter: f, lastRowOnly: true})
-					}
-				}
-			}
-		}
-		out = append(out, pngSpec{ctype: c.c, depth: c.d, w: 9, h: 9, filter: 4, interlaced: true})
-		out = append(out, pngSpec{ctype: c.c, depth: c.d, w: 3, h: 2, filter: 1, interlaced: true})
-	}
-	return out
-}
-
-// pngFamily builds the PNGs and self-checks the writer against Go's image/png (an independent decoder).
+// pngFamily returns the pngmk files; every one is checked against Go's image/png (pixel-exact), an
+// independent decoder, so a broken writer is a harness error and not a finding.
 func pngFamily(thorough bool) []seed {
+	tier := "quick"
+	if thorough {
+		tier = "thorough"
+	}
 	var out []seed
-	for _, s := range pngSpecs(thorough) {
-		data := makePNG(s)
-		if _, err := png.Decode(bytes.NewReader(data)); err != nil {
-			ev.Fatal("PNG writer self-check: image/png rejects %s: %v", s.name(), err)
+	for _, im := range pngmk.Enumerate(tier) {
+		if err := pngmk.Validate(im); err != nil {
+			ev.Fatal("PNG writer self-check: %v", err)
 		}
-		out = append(out, seed{s.name(), data})
+		out = append(out, seed{"gen:" + im.Name, im.Data})
 	}
 	return out
 }
